@@ -17,15 +17,16 @@ From LZ4V Require Import Proofs.DecRefineBase Proofs.DecRefineSafe Proofs.DecRef
 Import ListNotations.
 Local Open Scope Z_scope.
 
-(* proved part of [C05_valid_decodes_full_statement] (Proofs/DecRefineApi.v): safe loop
-   (LZ4_FAST_DEC_LOOP off), no dictionary or contiguous prefix of any size (the 64 KB-1
-   dispatch of LZ4_decompress_safe_usingDict included). *)
+(* proved part of [C05_valid_decodes_full_statement] (Proofs/DecRefineApi.v): the safe loop
+   (LZ4_FAST_DEC_LOOP off) with every history placement of LZ4_decompress_safe_usingDict: none,
+   contiguous prefix of any size (64 KB-1 dispatch included) and external dictionary (matches
+   inside the dictionary and matches straddling dictionary and output included). *)
 Theorem C05_valid_decodes_partial :
-  forall (B hist D : list Z) (srcm dictm : mem) (cap : Z) (m0 : mem),
+  forall (pl : placement) (B hist D : list Z) (srcm dictm : mem) (cap : Z) (m0 : mem),
     strict_valid (lastn (Z.to_nat 65536) hist) B = Some D -> bytes B -> src_at srcm 0 B ->
-    hist_placed PPrefix hist dictm m0 -> Z.of_nat (length D) <= cap ->
-    decodes_to (decompress_usingDict false false srcm (Z.of_nat (length B)) 0 cap PPrefix dictm (Z.of_nat (length hist)) m0) D.
-Proof. exact valid_decodes_safe_loop_prefix. Qed.
+    hist_placed pl hist dictm m0 -> Z.of_nat (length D) <= cap ->
+    decodes_to (decompress_usingDict false false srcm (Z.of_nat (length B)) 0 cap pl dictm (Z.of_nat (length hist)) m0) D.
+Proof. exact valid_decodes_safe_loop. Qed.
 Print Assumptions C05_valid_decodes_partial.
 
 Theorem C05_valid_decodes_safe_partial :
